@@ -28,6 +28,9 @@ RULE = ("1-5 keep-alive requests per connection, each with 0-4 proxy header line
         "lists with trusted entries and inner spaces, empty values, mixed-case/duplicate/folded header names; GET and POST, immediate "
         "and delayed responses, random segmentation; non-trivial = >=2 requests on the connection of which >=1 changes remote_ip or protocol")
 EXHAUSTIVE = {"quick": False, "thorough": False}
+CLAUSE_CAVEATS = [
+    "'numeric IP address' is judged with the implementation's own is_valid_ip in the tie (validity is a parameter in Lean); the independent characterisation of is_valid_ip is property C43's",
+]
 CLAUSES = {
     "remote_ip is a numeric IP taken from the proxy headers only when they supply one, X-Real-Ip before the rightmost untrusted "
     "X-Forwarded-For entry, else the socket address":
